@@ -10,6 +10,16 @@
 (*              (afterStop = <<>> when Stop was not called: Caddy does not *)
 (*              stop an app whose Start failed)                            *)
 (*   t.loopsLeft  serve goroutines still running at the end                *)
+(* Lines of kind "accept" (harness: the serve loop over a scripted         *)
+(* listener / packet socket): one connection (datagram) is served, then    *)
+(* Accept (ReadFrom) fails with t.err = "timeout" | "transient" (an error  *)
+(* whose Temporary() is true and Timeout() false, e.g. EMFILE) | "closed", *)
+(* then another connection is offered:                                     *)
+(*   t.servedBefore, t.servedAfter   the two connections were served       *)
+(*   t.loopEnded                     the loop returned                     *)
+(* Z5 a timeout does not end the loop; Z7 a closed socket does; Z6 a       *)
+(* transient error does not end it (ServedWhileBound of L4App) - like Z4   *)
+(* an observation about the code as it is, not a listed property.          *)
 (* Z1-Z3 hold of the code as it is; Z4 is the clause the model shows to be *)
 (* violated (FailedStartLeavesNothing) - reported as an observation, it is *)
 (* not one of the listed properties.                                       *)
@@ -20,11 +30,19 @@ Z1(t) == (t.failAt = 0) => (~t.startErr /\ \A i \in 1..t.n : t.afterStart[i])
 Z2(t) == (t.failAt = 0) => (\A i \in 1..t.n : ~t.afterStop[i]) /\ t.loopsLeft = 0
 Z3(t) == (t.failAt # 0) => t.startErr
 Z4(t) == (t.failAt # 0) => \A i \in 1..t.n : ~t.afterStart[i]
-AppViolations(t) ==
+Z5(t) == t.err = "timeout" => (t.servedBefore /\ t.servedAfter /\ ~t.loopEnded)
+Z6(t) == t.err = "transient" => (t.servedBefore /\ t.servedAfter /\ ~t.loopEnded)
+Z7(t) == t.err = "closed" => (t.servedBefore /\ t.loopEnded /\ ~t.servedAfter)
+AcceptViolations(t) ==
+  (IF Z5(t) THEN {} ELSE {"Z5 a timeout of Accept / ReadFrom ended the serve loop or lost a connection"})
+  \cup (IF Z6(t) THEN {} ELSE {"Z6 a transient error of Accept / ReadFrom ended the serve loop: the socket stays bound and nobody serves it"})
+  \cup (IF Z7(t) THEN {} ELSE {"Z7 the serve loop did not end when its socket was closed"})
+LifeViolations(t) ==
   (IF Z1(t) THEN {} ELSE {"Z1 after a successful Start some address is not served"})
   \cup (IF Z2(t) THEN {} ELSE {"Z2 after Stop an address is still served or a serve loop is still running"})
   \cup (IF Z3(t) THEN {} ELSE {"Z3 Start did not report that an address could not be bound"})
   \cup (IF Z4(t) THEN {} ELSE {"Z4 a failed Start left addresses bound (nobody will ever close them)"})
+AppViolations(t) == IF t.kind = "accept" THEN AcceptViolations(t) ELSE LifeViolations(t)
 Judge(t) == LET v == AppViolations(t) IN
             IF v = {} THEN TRUE ELSE PrintT(<<"VBAD", ToJson([id |-> t.id, clauses |-> v])>>)
 VARIABLE k
